@@ -270,7 +270,8 @@ EAGER = ("cached_amp", "cached_shape", "base_factor", "p4_directly")
 
 def pinned_strategy_configs():
     """(tag, cfg, M0, mf, tree, extra, spec).  spec: only = strategies run in the quick tier, boost = lab velocity of the
-    whole event, move = the trainable parameters change between preprocessing and evaluation, no_rebuild = the density is
+    whole event, set = parameter values set on top of the random couplings, move = the trainable parameters change between
+    preprocessing and evaluation, no_rebuild = the density is
     not |sum of chain tensors|^2, known = strategy -> OPEN finding (site, fingerprint)"""
     out = []
     # moving parent with restricted helicities: the direction of the z axis matters (random_z default of the data section)
@@ -287,7 +288,7 @@ def pinned_strategy_configs():
     res = {"R_BC": {"pair": "R_BC", "J": 1, "P": -1, "mass": 0.9, "model": "Flatte", "mass_list": [[0.5, 0.14], [0.6, 0.6]]},
            "R_CD": {"pair": "R_CD", "J": 0, "P": 1, "mass": 0.6, "width": 0.3}}
     cfg = ampkit.three_body_config(1.9, PMF, res)
-    out.append(("flatte", cfg, 1.9, PMF, None, None, {"only": ("cached_amp", "cached_shape", "base_factor"), "move": True}))
+    out.append(("flatte", cfg, 1.9, PMF, None, None, {"only": ("cached_amp", "cached_shape", "base_factor"), "move": True, "set": {"R_BC_g_0": 0.5, "R_BC_g_1": 0.3}}))
     # cp_particles symmetrisation (the CP-swapped amplitude is added): OPEN finding for the cached strategies
     mf = {"B": 0.3, "C": 0.3, "D": 0.14}
     res = {"R_BD": {"pair": "R_BD", "J": 1, "P": -1, "mass": 0.9, "width": 0.1}, "R_BC": {"pair": "R_BC", "J": 0, "P": 1, "mass": 1.0, "width": 0.3}}
@@ -379,6 +380,8 @@ def builder_and_strategy_cases(ctx, rnd, tier, cases, tags=None):
         config = ConfigLoader(cfg)
         amp = config.get_amplitude()
         pars = ampkit.random_params(amp, rnd)
+        if spec.get("set"):
+            amp.set_params(spec["set"]); pars = {k: float(v) for k, v in amp.get_params().items()}
         pars_pre = None
         if spec.get("move"):
             # only trainable parameters move (what a fit does between the preprocessing of the data and an evaluation)
